@@ -418,6 +418,9 @@ func (u *CppUnit) Plan(fn, ty *TExpr, params map[string]string, depth int) (stri
 			if !ok {
 				return "", &ErrUnknown{"enum type " + et.Name}
 			}
+			if rb := u.resolve(&TExpr{Name: b}); rb != nil && len(rb.Args) == 0 {
+				b = rb.Name // the base may be spelled through a using-alias
+			}
 			p, ok := cppInt[b]
 			if !ok {
 				return "", fmt.Errorf("enum %s has the non-integer base %s", et.Name, b)
